@@ -196,10 +196,15 @@ class Check(BaseCheck):
                                 d.strftime('%Y/%m/%d'), d.strftime('%d.%m.%Y'), d.strftime('%H:%M:%S')], 3)
         vals += ['43789', '43789.5', '61', 'FALSE', 'true', '0', '-1', '1E3', '1e3']
         vals += [rnd.randint(1, 19) + rnd.randint(1, 99) / 100.0 for _ in range(6)] + [1.14, 2.47, 4.56, 114 / 100.0]
-        while len(vals) < n + 60:
+        # numbers whose class is a subclass of int or float (an enum member, a unit type): numbers like any other
+        import enum
+        Level = enum.IntEnum('Level', 'LOW MID HIGH')
+        vals += [Level.HIGH, Level.LOW, type('Metres', (float,), {})(2.5), type('Count', (int,), {})(3), type('Metres', (float,), {})(0.0)]
+        fixed = len(vals)
+        while len(vals) < max(n + 60, fixed + 45):          # at least 45 generated values beside the fixed ones, whatever their number
             vals.append(GV.gen(rnd, rnd.choice(classes)))
         rnd.shuffle(vals)
-        return vals[:max(n, 110)]
+        return vals[:max(n, fixed + 45)]
 
     def pairs(self, spec, rec):
         rnd = self.rng(spec)
